@@ -234,6 +234,9 @@ func cmdCheck(args []string) int {
 	for _, g := range e.specs.Globals {
 		trusted = append(trusted, "assumed global fact (established by init, never reassigned): "+g.Text)
 	}
+	for k := range e.usedAxioms {
+		trusted = append(trusted, "ghost definition (axiom schema, instantiated only by explicit 'uses' clauses; justified by the lemma named in prelude.spec): "+k)
+	}
 	sort.Strings(trusted)
 	trusted = append(trusted, globalTrusted...)
 	var assumptions []string
@@ -349,6 +352,15 @@ func (e *Engine) lemmaObligations(prop string) ([]*Obligation, string) {
 			rt.entry = st
 			r := &FnRun{root: rt, e: e, vals: map[ssa.Value]Val{}, names: map[string]ssa.Value{}}
 			env := r.newEnv(st, st)
+			for i, pn := range l.Params {
+				pt, ok := specTypes[l.PTypes[i]]
+				if !ok {
+					panic(fmt.Sprintf("unknown lemma parameter type %s", l.PTypes[i]))
+				}
+				v := e.freshVal(pt, "l!"+pn)
+				r.typeInvariant(v, pt)
+				env.vars[pn] = CV{V: v, T: pt}
+			}
 			g := env.EvalBool(l.E)
 			for i, pc := range e.splitGoal(g) {
 				n := "lemma:" + l.Name
